@@ -26,7 +26,7 @@ import numpy as np
 from hypothesis import strategies as st
 
 from vf.common import Check, Violation, require
-from vf.strategies import CRS_POOL, FA, SINU_PROJ, affines, crs_kind, crs_tags, mk_affine, mk_crs, mk_crs_spec
+from vf.strategies import CRS_POOL, FA, SINU_PROJ, affines, crs_kind, crs_tags, mk_affine, mk_crs_spec
 
 RULE = (
     "Hypothesis. Boxes: vf.strategies.affines (exact dyadic family / general family; north-up, mirrored, "
@@ -1046,6 +1046,46 @@ def o_reproject(case, T):
         T.nontrivial((a_, b_, case["how"], case["container"], case["dask"], sc["rot"], case.get("dst", {}).get("rot")))
 
 
+# ============================================================================ known-finding signatures
+# Only consulted when known_findings.json lists the id with status "known" for C09 (i.e. if the lead decides not
+# to apply sensitivity/C09/PROPOSED-FIX-*.diff).  Suggested ids: C09-PIXFALLBACK, C09-POLYPICKLE.
+def _pixel_space(bc) -> bool:
+    return bc["kind"] == "gcp" or _skew(bc) >= 1e-10
+
+
+def k_pixel_axis_fallback(sub, case, msg) -> bool:
+    """Rotated/GCP box (pixel-space labels) with a unit spatial side at the failing step, location/affine wrong."""
+    import re
+
+    if sub == "roundtrip":
+        bc = case["box"]
+        return _pixel_space(bc) and 1 in bc["shape"] and ("affine" in msg)
+    if sub in ("history", "history_gcp"):
+        bc = case["box"]
+        if not _pixel_space(bc) or "maps to" not in msg:
+            return False
+        m = re.search(r"after step (\d+)", msg)
+        nstep = int(m.group(1)) if m else 0
+        if bc.get("crop"):
+            lens = {"y": bc["crop"][1] - bc["crop"][0], "x": bc["crop"][3] - bc["crop"][2]}
+        else:
+            lens = {"y": bc["shape"][0], "x": bc["shape"][1]}
+        for op in case["ops"][:nstep]:
+            if op[0] in ("isel", "getitem"):
+                for r, sl in op[1].items():
+                    if r in lens:
+                        lens[r] = len(range(lens[r])[slice(*sl)])
+        return lens["y"] == 1 or lens["x"] == 1
+    if sub == "reproject":
+        d = case.get("dst", {})
+        return case.get("how") == "geobox" and d.get("rot") != "none" and 1 in d.get("shape", []) and "affine" in msg
+    return False
+
+
+def k_poly2d_pickle(sub, case, msg) -> bool:
+    return sub in ("history", "history_gcp") and case["box"]["kind"] == "gcp" and "pickle.dumps of the array failed" in msg and "Poly2d" in msg
+
+
 # ============================================================================ registry
 def build(chk: Check) -> None:
     chk.sub("roundtrip", o_roundtrip, strategy=s_roundtrip(gcp=False), n={"quick": 4000, "thorough": 600000}, budget_s={"quick": 40, "thorough": 180})
@@ -1053,3 +1093,5 @@ def build(chk: Check) -> None:
     chk.sub("history", o_history, strategy=s_history(gcp=False), n={"quick": 2400, "thorough": 500000}, budget_s={"quick": 50, "thorough": 240})
     chk.sub("history_gcp", o_history, strategy=s_history(gcp=True), n={"quick": 700, "thorough": 150000}, budget_s={"quick": 30, "thorough": 120})
     chk.sub("reproject", o_reproject, strategy=s_reproject(), n={"quick": 360, "thorough": 60000}, budget_s={"quick": 50, "thorough": 200}, shrink=False)
+    chk.known("C09-PIXFALLBACK", k_pixel_axis_fallback)
+    chk.known("C09-POLYPICKLE", k_poly2d_pickle)
